@@ -139,6 +139,11 @@ def base_tokens(rng):
         else:
             t += nl(0)
     t += ["}"] + nl(0)
+    if rng.random() < 0.2:  # a second block: the parsed belief base is still the first one
+        t += ["cond"] + nl() + [rng.choice(["kb", "a"])] + nl(0) + ["{"] + nl(0)
+        if rng.random() < 0.6:
+            t += ["("] + rand_formula_tokens(rng, 1) + ["|"] + rand_formula_tokens(rng, 1) + [")"] + nl(0)
+        t += ["}"] + nl(0)
     return t
 
 
@@ -180,10 +185,11 @@ def _exec_files(args):
         text = render_tokens(toks, rng, nlstyle=rng.choice(["\n", "\n", "\r\n"]))
         rec = {"kind": kind, "tokens": toks, "text": text, "ok": False, "sig": [], "conds": [], "note": None}
         try:
+            # "fileq": a complete belief-base text handed to parse_queries (it then yields that base's conditionals)
             obj = parse_belief_base(text) if kind == "file" else parse_queries(text)
             conds = obj.conditionals
             rec["ok"] = True
-            rec["sig"] = [("T" if s == "Top" else "F" if s == "Bottom" else s) for s in obj.signature] if kind == "file" else []
+            rec["sig"] = [("T" if s == "Top" else "F" if s == "Bottom" else s) for s in obj.signature] if kind in ("file", "fileq") else []
             rec["conds"] = [[mask_of(c.consequence), mask_of(c.antecedence)] for c in conds.values()]
             if list(conds.keys()) != list(range(1, len(conds) + 1)):
                 rec["note"] = f"keys {list(conds.keys())} are not 1..n in file order"
@@ -208,14 +214,16 @@ def file_level(chk: Check, tier, rng):
     for _ in range(n_files):
         t = base_tokens(rng)
         items.append(("file", t))
+        items.append(("fileq", t))
         items += [("file", m) for m in mutations(t, rng, per)]
+        items += [("fileq", m) for m in mutations(t, rng, 6)]
         q = query_tokens(rng)
         items.append(("queries", q))
         items += [("queries", m) for m in mutations(q, rng, per // 2 if per else None) if m]
     chunks = [items[i:i + 50] for i in range(0, len(items), 50)]
     results = infer.pool_map(_exec_files, [(c, rng.randrange(1 << 30)) for c in chunks], chunksize=2)
     recs = [r for rs in results for r in rs]
-    events = [{"ev": r["kind"], "tokens": r["tokens"], "ok": r["ok"], "sig": r["sig"], "conds": r["conds"]} for r in recs]
+    events = [{"ev": "file" if r["kind"] == "fileq" else r["kind"], "tokens": r["tokens"], "ok": r["ok"], "sig": r["sig"], "conds": r["conds"]} for r in recs]
     os.makedirs(os.path.join(BUILD, "in"), exist_ok=True)
     tf = os.path.join(BUILD, "in", "C10_files.json")
     with open(tf, "w") as f:
